@@ -591,7 +591,7 @@ func (s *svcClient) runOp(op SvcOp) {
 		s.mu.Unlock()
 		src := fmt.Sprintf("export const t%d = %d", n, n)
 		if op.Big {
-			src += strings.Repeat(fmt.Sprintf("\nconsole.log(%d, [1, 2, 3].map(x => x * 2))", n), 3000)
+			src += strings.Repeat(fmt.Sprintf("\nconsole.log(%d, [1, 2, 3].map(x => x * 2))", n), 600)
 		}
 		r, e := s.request("transform", 0, map[string]interface{}{"flags": []interface{}{"--loader=js", "--minify-whitespace"}, "inputFS": false, "input": []byte(src)})
 		if e == "" {
@@ -1019,13 +1019,24 @@ func replayService(raw json.RawMessage) vdrv.Verdict {
 
 func genSvcCase(t *rapid.T) SvcCase {
 	c := SvcCase{Procs: rapid.SampledFrom([]int{1, 2, 4, 8}).Draw(t, "gomaxprocs")}
-	kinds := []string{"transform", "transform", "build", "pbuild", "ctx", "ctx", "rebuild", "rebuild", "rebuild", "cancel", "dispose", "format", "analyze"}
+	kinds := []string{"transform", "transform", "build", "pbuild", "ctx", "rebuild", "rebuild", "rebuild", "cancel", "dispose", "format", "analyze"}
+	ctxKinds := []string{"rebuild", "rebuild", "rebuild", "cancel", "rebuild", "transform", "dispose"}
 	total := 0
 	for i, n := 0, rapid.IntRange(2, 6).Draw(t, "clients"); i < n; i++ {
 		var ops []SvcOp
-		for j, m := 0, rapid.IntRange(1, 8).Draw(t, "nops"); j < m; j++ {
-			ops = append(ops, SvcOp{Kind: rapid.SampledFrom(kinds).Draw(t, "op"), Slot: rapid.IntRange(0, 2).Draw(t, "slot"),
-				DelayUS: rapid.SampledFrom([]int{0, 0, 100, 1000, 5000}).Draw(t, "delay"), Plugins: rapid.Bool().Draw(t, "plugins"), Big: rapid.IntRange(0, 3).Draw(t, "big") == 0})
+		delay := func() int { return rapid.SampledFrom([]int{0, 0, 100, 1000, 5000}).Draw(t, "delay") }
+		if rapid.Bool().Draw(t, "ctxclient") {
+			// a client that owns a context: create it, then work on it (other clients may use the same slot)
+			slot := rapid.SampledFrom([]int{0, 0, 0, 1, 2}).Draw(t, "ownslot")
+			ops = append(ops, SvcOp{Kind: "ctx", Slot: slot, DelayUS: delay(), Plugins: rapid.Bool().Draw(t, "plugins")})
+			for j, m := 0, rapid.IntRange(1, 6).Draw(t, "nctxops"); j < m; j++ {
+				ops = append(ops, SvcOp{Kind: rapid.SampledFrom(ctxKinds).Draw(t, "ctxop"), Slot: slot, DelayUS: delay(), Big: rapid.IntRange(0, 3).Draw(t, "big") == 0})
+			}
+		} else {
+			for j, m := 0, rapid.IntRange(1, 8).Draw(t, "nops"); j < m; j++ {
+				ops = append(ops, SvcOp{Kind: rapid.SampledFrom(kinds).Draw(t, "op"), Slot: rapid.SampledFrom([]int{0, 0, 0, 1, 2}).Draw(t, "slot"),
+					DelayUS: delay(), Plugins: rapid.Bool().Draw(t, "plugins"), Big: rapid.IntRange(0, 3).Draw(t, "big") == 0})
+			}
 		}
 		total += len(ops)
 		c.Clients = append(c.Clients, ops)
@@ -1039,11 +1050,11 @@ func genSvcCase(t *rapid.T) SvcCase {
 }
 
 func runService(t *testing.T) {
-	H.Rule("service", "rapid: the real `esbuild --service=<version> --ping` child (cmd/esbuild built with -race, GORACE=halt_on_error, GOMAXPROCS drawn) driven over stdin/stdout by an independent implementation of the length-prefixed wire protocol: 2–6 logical clients interleave transform (small and 3000-statement inputs), build from stdin, build with wire plugins (on-start/on-resolve/on-load/on-end requests FROM esbuild answered by the client after a drawn 0–5 ms), context creation on three shared slots followed by rebuild/cancel/dispose from any client, format-msgs and analyze-metafile; every request payload is unique so a response can be matched to its request by content as well as by id; pings are answered. stdin is closed after a drawn number of operations, only when no operation that needs client callbacks is in flight and after `dispose` was sent for every live context (drawn: with or without waiting for the dispose responses); callback-free requests may still be in flight. Oracle: every packet decodes; every request id receives exactly one response, carrying that id and the content that belongs to it; on-start precedes on-resolve/on-load per build, each path loaded once; no output of another build in on-end; no DATA RACE/panic on stderr; exit status 0 within 30 s of closing stdin. Non-trivial = two requests were in flight at once and a plugin callback was answered.")
+	H.Rule("service", "rapid: the real `esbuild --service=<version> --ping` child (cmd/esbuild built with -race, GORACE=halt_on_error, GOMAXPROCS drawn) driven over stdin/stdout by an independent implementation of the length-prefixed wire protocol: 2–6 logical clients interleave transform (small and 600-statement inputs), build from stdin, build with wire plugins (on-start/on-resolve/on-load/on-end requests FROM esbuild answered by the client after a drawn 0–5 ms), context creation on three shared slots followed by rebuild/cancel/dispose from any client, format-msgs and analyze-metafile; every request payload is unique so a response can be matched to its request by content as well as by id; pings are answered. stdin is closed after a drawn number of operations, only when no operation that needs client callbacks is in flight and after `dispose` was sent for every live context (drawn: with or without waiting for the dispose responses); callback-free requests may still be in flight. Oracle: every packet decodes; every request id receives exactly one response, carrying that id and the content that belongs to it; on-start precedes on-resolve/on-load per build, each path loaded once; no output of another build in on-end; no DATA RACE/panic on stderr; exit status 0 within 30 s of closing stdin. Non-trivial = two requests were in flight at once and a plugin callback was answered.")
 	if _, err := serviceBinary(); err != nil {
 		t.Fatalf("INFRA: %v", err)
 	}
-	H.SetupRapid("service", H.N(420, 9000))
+	H.SetupRapid("service", H.N(96, 2400))
 	rapid.Check(t, func(rt *rapid.T) {
 		c := genSvcCase(rt)
 		raw, _ := json.Marshal(c)
